@@ -45,6 +45,7 @@ ASSUMPTIONS = [
 
 TP = 'pywbem/_tupleparse.py'
 TT = 'pywbem/_tupletree.py'
+OBJ = 'pywbem/_cim_obj.py'
 HTTP = 'pywbem/_cim_http.py'
 OBSERVER_FILES = ('pywbem/_recorder.py', 'pywbem/_statistics.py',
                   'pywbem/_logging.py')
@@ -444,9 +445,166 @@ def run(repo, rep, tier):
             return sites > 0
         return False
 
+    # ---- container constructors that are handed parsed objects ----------
+    tp_cls = repo.cls(TP, 'TupleParser')
+    _rc_cache = {}
+
+    def returned_classes(meth, depth=0):
+        """names of the CIM classes whose instances a parse method returns
+        (None in the set: something else may be returned too)"""
+        if meth.fq in _rc_cache:
+            return _rc_cache[meth.fq]
+        if depth > 3:
+            return {None}
+        _rc_cache[meth.fq] = {None}          # recursion guard
+        out = set()
+        for r in walk_no_nested(meth.node):
+            if not isinstance(r, ast.Return):
+                continue
+            vals = [r.value]
+            if isinstance(r.value, ast.Name):
+                vals = [n.value for n in walk_no_nested(meth.node)
+                        if isinstance(n, ast.Assign) and
+                        any(isinstance(t, ast.Name) and t.id == r.value.id
+                            for t in n.targets)] or [None]
+            for x in vals:
+                d = dotted(x.func) if isinstance(x, ast.Call) else None
+                if d and '.' not in d and d.startswith('CIM'):
+                    out.add(d)
+                elif d and d.startswith('self.parse_') and \
+                        tp_cls.find_method(d[5:]) is not None:
+                    out |= returned_classes(tp_cls.find_method(d[5:]),
+                                            depth + 1)
+                else:
+                    out.add(None)
+        _rc_cache[meth.fq] = out or {None}
+        return _rc_cache[meth.fq]
+
+    def parsed_items_classes(expr, func, depth=0):
+        """the classes of the items of a list that was built by
+        list_of_matching() & co. from named child elements, followed
+        through locals and - for a parameter of a helper - all call sites;
+        None in the set: not known to be parsed objects"""
+        if depth > 3 or expr is None:
+            return {None}
+        if isinstance(expr, ast.Constant) and expr.value is None:
+            return set()
+        if isinstance(expr, ast.Call) and dotted(expr.func) in (
+                'self.list_of_matching', 'self.list_of_various',
+                'self.list_of_same') and len(expr.args) >= 2 and \
+                isinstance(expr.args[1], (ast.Tuple, ast.List)):
+            out = set()
+            for el in expr.args[1].elts:
+                nm = const_str(el)
+                m_ = tp_cls.find_method(
+                    'parse_' + nm.lower().replace('.', '_')) if nm else None
+                if m_ is None:
+                    return {None}
+                out |= returned_classes(m_)
+            return out
+        if not isinstance(expr, ast.Name):
+            return {None}
+        defs = [n.value for n in walk_no_nested(func.node)
+                if isinstance(n, ast.Assign) and
+                any(isinstance(t, ast.Name) and t.id == expr.id
+                    for t in n.targets)]
+        if any(isinstance(x, ast.Name) and isinstance(x.ctx, ast.Store) and
+               x.id == expr.id for n in walk_no_nested(func.node)
+               if not isinstance(n, ast.Assign) for x in ast.walk(n)
+               if isinstance(n, (ast.For, ast.AugAssign, ast.With))):
+            return {None}
+        if defs:
+            out = set()
+            for d_ in defs:
+                out |= parsed_items_classes(d_, func, depth + 1)
+            return out
+        ps_ = [p_ for p_ in func.params if p_ not in ('self', 'cls')]
+        if expr.id in ps_:
+            idx = ps_.index(expr.id)
+            out, sites = set(), 0
+            for f2 in repo.module(TP).all_funcs():
+                for c2 in walk_no_nested(f2.node):
+                    if isinstance(c2, ast.Call) and \
+                            (dotted(c2.func) or '').split('.')[-1] == \
+                            func.name and func in res.resolve(c2, f2)[0]:
+                        sites += 1
+                        a_ = c2.args[idx] if idx < len(c2.args) else next(
+                            (k.value for k in c2.keywords
+                             if k.arg == expr.id), None)
+                        out |= parsed_items_classes(a_, f2, depth + 1)
+            return out if sites else {None}
+        return {None}
+
+    _wp_cache = {}
+
+    def wrapper_passes_objects(wname, clsname):
+        """the item wrapper (_cim_qualifier & co.) constructs a new object
+        only when its value is not already one of that class"""
+        k = (wname, clsname)
+        if k not in _wp_cache:
+            from ..cfg import stmt_facts as _sf, GuardWalker as _GW
+            w = repo.module(OBJ).functions.get(wname)
+            ok = w is not None
+            n_ = 0
+            if ok:
+                for st, (fs, _t) in _sf(w.node).items():
+                    if isinstance(st, (ast.If, ast.For, ast.While, ast.Try,
+                                       ast.With)):
+                        continue
+                    if not any(isinstance(c, ast.Call) and
+                               dotted(c.func) == clsname
+                               for c in ast.walk(st)):
+                        continue
+                    n_ += 1
+                    atoms = [a for t, pol in fs for a in _GW._atoms(t, pol)]
+                    if not any(
+                            not pol and isinstance(t, ast.Call) and
+                            dotted(t.func) == 'isinstance' and
+                            len(t.args) == 2 and norm(t.args[1]) == clsname
+                            and norm(t.args[0]) in w.params
+                            for t, pol in atoms):
+                        ok = False
+            _wp_cache[k] = ok and n_ > 0
+        return _wp_cache[k]
+
+    def container_items_are_objects(call, func, target, e):
+        """every way the origin is reached from this constructor goes
+        through an item wrapper that converts only values that are not yet
+        objects, and the argument concerned holds objects the parser built
+        (or is omitted)"""
+        ps_ = [p_ for p_ in target.params if p_ not in ('self', 'cls')]
+        for chain in e.all_chains():
+            if len(chain) < 4:
+                return False
+            setter, wrapper, ctor = chain[1], chain[2], chain[3]
+            if setter.count('.') != 1 or not wrapper.startswith('_cim_') \
+                    or not ctor.endswith('.__init__'):
+                return False
+            attr = setter.split('.')[1]
+            clsname = ctor.split('.')[0]
+            if attr not in ps_:
+                return False
+            i_ = ps_.index(attr)
+            arg = call.args[i_] if i_ < len(call.args) else next(
+                (k.value for k in call.keywords if k.arg == attr), None)
+            if any(isinstance(a_, ast.Starred) for a_ in call.args) or \
+                    any(k.arg is None for k in call.keywords):
+                return False
+            if arg is None:
+                continue          # omitted: nothing to convert
+            if not parsed_items_classes(arg, func) <= {clsname}:
+                return False
+            if not wrapper_passes_objects(wrapper, clsname):
+                return False
+        return True
+
     def esc_filter(call, func, target, e):
         if target.file in OBSERVER_FILES:
             return False
+        if func.file == TP and target.name == '__init__' and \
+                (e.func, e.exc) in VALUE_ORIGINS and \
+                container_items_are_objects(call, func, target, e):
+            return False       # the items are objects the parser built
         if e.kind == 'stdlib' and e.exc == 'TypeError' and \
                 e.func == target.qualname and \
                 e.construct.startswith('xml.sax.parseString'):
@@ -617,9 +775,7 @@ def run(repo, rep, tier):
                                     a.func.attr == 'get' and \
                                     len(a.args) == 2 and \
                                     isinstance(a.args[1], ast.Name):
-                                vals = _loop_constants(g, a.args[1].id)
-                                if vals and all(isinstance(v_, str)
-                                                for v_ in vals):
+                                if _always_str(repo, g, a.args[1].id):
                                     continue
                             if const_str(a) is not None:
                                 continue
@@ -678,16 +834,21 @@ def run(repo, rep, tier):
             return
         if e.key not in top_keys or e.kind == 'assert':
             return
-        hop = e.chain[1] if len(e.chain) > 1 else e.func
-        if file_of.get(hop, e.file) in REPLY_FILES:
-            return             # not the frontier
         if ea.h.is_sub(e.exc, 'Error'):
             return
-        if (e.func, e.exc) not in VALUE_ORIGINS:
-            skipped_shape.add('%s:%s' % (e.func, e.exc))
-            return
-        frontier.setdefault((fname, hop, e.exc), []).append(
-            ((fname, ffile, fline), e))
+        # every callee through which the exception leaves this function
+        # (the summary remembers the chains that differ in that callee)
+        for chain in e.all_chains():
+            hop = chain[1] if len(chain) > 1 else e.func
+            if file_of.get(hop, e.file) in REPLY_FILES:
+                continue           # not the frontier
+            if (e.func, e.exc) not in VALUE_ORIGINS:
+                skipped_shape.add('%s:%s' % (e.func, e.exc))
+                continue
+            e2 = e if chain is e.chain else type(e)(
+                e.exc, e.kind, e.file, e.func, e.construct, e.line, chain)
+            frontier.setdefault((fname, hop, e.exc), []).append(
+                ((fname, ffile, fline), e2))
     for f in repo.all_funcs():
         if f.fq not in ea.summ:
             continue
@@ -1568,6 +1729,43 @@ def unbounded_int_text_rule(repo, rep):
     if not n:
         raise AnalysisError('C02.R11: no int(text, 16) in the response '
                             'parser (anchor moved)')
+
+
+def _always_str(repo, func, name, depth=0):
+    """the local / parameter `name` of a parser function only ever holds a
+    string constant: its bindings are for-loop positions over literal
+    tuples of string constants, or it is a parameter that is never re-bound
+    and every call site in the parser passes a string constant or such a
+    name"""
+    vals = _loop_constants(func, name)
+    if vals:
+        return all(isinstance(v_, str) for v_ in vals)
+    ps = [p_ for p_ in func.params if p_ not in ('self', 'cls')]
+    if depth > 2 or name not in ps or any(
+            isinstance(n, ast.Name) and n.id == name and
+            isinstance(n.ctx, (ast.Store, ast.Del))
+            for n in ast.walk(func.node)):
+        return False
+    idx = ps.index(name)
+    sites = 0
+    for g in repo.module(func.file).all_funcs():
+        for c in ast.walk(g.node):
+            if not (isinstance(c, ast.Call) and dotted(c.func) in (
+                    'self.' + func.name, 'cls.' + func.name, func.name,
+                    (func.cls.name + '.' + func.name) if func.cls else '')):
+                continue
+            sites += 1
+            a = c.args[idx] if idx < len(c.args) else next(
+                (k.value for k in c.keywords if k.arg == name), None)
+            if a is None:
+                return False
+            if const_str(a) is not None:
+                continue
+            if isinstance(a, ast.Name) and _always_str(repo, g, a.id,
+                                                       depth + 1):
+                continue
+            return False
+    return sites > 0
 
 
 def _loop_constants(func, name):
